@@ -2290,3 +2290,117 @@ class ShareSumEndToEnd(EnumContract):
 
 
 REGISTRY.append(ShareSumEndToEnd())
+
+
+# =======================================================================================
+# C19 through the public API: every spelling of an array-item reference gives the same output
+
+
+def gen_spelling_case(rnd):
+    md = dict(kind="MR", name="m", n=rnd.choice([2, 3]))
+    other = gen_dim(rnd, "CAT", "c")
+    other.pop("doc_order", None)
+    mr_rows = rnd.random() < 0.5
+    dims = [md, other] if mr_rows else [other, md]
+    one_d = rnd.random() < 0.25
+    if one_d:
+        dims = [md]
+    rs = gen_respondents(rnd, dims, rnd.choice([5, 12, 25]), rnd.random() < 0.4)
+    n = md["n"]
+    plan = dict(
+        order=rnd.sample(range(n), rnd.choice([n, n - 1])) if rnd.random() < 0.6 else None,
+        hide=rnd.randrange(n) if rnd.random() < 0.4 else None,
+        rename=rnd.randrange(n) if rnd.random() < 0.3 else None,
+        sort_by=(rnd.randrange(n) if (not one_d and rnd.random() < 0.4) else None),
+        fixed_bottom=(rnd.randrange(n) if rnd.random() < 0.3 else None),
+        stale=rnd.random() < 0.3,
+    )
+    return dict(dims=dims, rs=rs, weighted=False, plan=plan, mr_axis=(0 if (one_d or mr_rows) else 1), one_d=one_d)
+
+
+class SpellingsEndToEnd(EnumContract):
+    name = "e2e:array-item references by id / string id / alias / sub-variable id give identical output (public API)"
+    props = ("C19",)
+    bound = ("MR strands and MR x CAT / CAT x MR slices, 2-3 items, <= 25 respondents; explicit order, hide, rename, sort by "
+             "opposing item and fixed-bottom transforms, each written with the int id, the string id, the alias and the "
+             "sub-variable id of the items, optionally with a reference that matches nothing; seeded sample")
+    clauses = ("same-output-for-every-spelling", "stale-references-ignored", "spelling-exception")
+
+    def cases(self, cfg, seed, thorough):
+        rnd = random.Random(9300 + seed)
+        for _ in range(1500 if thorough else 200):
+            yield gen_spelling_case(rnd)
+
+    def check_case(self, case, cfg):
+        import warnings
+        from cr.cube.cube import Cube
+
+        warnings.simplefilter("ignore")
+        dims, rs, plan, ax = case["dims"], case["rs"], case["plan"], case["mr_axis"]
+        md = dims[ax]
+        name = md["name"]
+        spellings = {
+            "int": lambda i: i + 1,
+            "str": lambda i: str(i + 1),
+            "alias": lambda i: "%s_%d" % (name, i),
+            "subvar-id": lambda i: "%04d" % i,
+            # a number that is no element id (ids are 1..n) is a zero-based position: 0 is item 0
+            "position": lambda i: 0 if i == 0 else i + 1,
+        }
+        side = "rows_dimension" if ax == 0 else "columns_dimension"
+        oside = "columns_dimension" if ax == 0 else "rows_dimension"
+
+        def transforms(sp, stale):
+            t = {}
+            if plan["order"] is not None:
+                ids = [sp(i) for i in plan["order"]]
+                if stale:
+                    ids = ids[:1] + ["no_such_item"] + ids[1:]
+                t["order"] = {"type": "explicit", "element_ids": ids}
+            els = {}
+            if plan["hide"] is not None:
+                els[str(sp(plan["hide"]))] = {"hide": True}
+            if plan["rename"] is not None:
+                els.setdefault(str(sp(plan["rename"])), {})["name"] = "renamed"
+            if stale:
+                els["no_such_item"] = {"hide": True}
+            if els:
+                t["elements"] = els
+            out = {side: t} if t else {}
+            if plan["sort_by"] is not None and not case["one_d"]:
+                o = {"type": "opposing_element", "element_id": sp(plan["sort_by"]), "measure": "count_unweighted"}
+                if plan["fixed_bottom"] is not None:
+                    pass
+                out[oside] = {"order": o}
+            if plan["fixed_bottom"] is not None and plan["order"] is None:
+                out.setdefault(side, {})["order"] = {"type": "label", "fixed": {"bottom": [sp(plan["fixed_bottom"])]}}
+            return out
+
+        def snapshot(tr):
+            p = Cube(tabulate(dims, rs, False), transforms=tr or None, population=1000).partitions[0]
+            snap = [[int(x) for x in p.row_order()], [str(x) for x in p.row_labels], norm_list(p.counts)]
+            if not case["one_d"]:
+                snap += [[int(x) for x in p.column_order()], [str(x) for x in p.column_labels]]
+            return snap
+
+        def norm_list(a):
+            import numpy as np
+
+            return [None if x != x else round(float(x), 9) for x in np.asarray(a, dtype=float).ravel()]
+
+        bad = set()
+        try:
+            ref = snapshot(transforms(spellings["int"], False))
+            for nm, sp in spellings.items():
+                if snapshot(transforms(sp, False)) != ref:
+                    bad.add("same-output-for-every-spelling")
+            if plan["stale"]:
+                for nm, sp in spellings.items():
+                    if snapshot(transforms(sp, True)) != ref:
+                        bad.add("stale-references-ignored")
+        except Exception as e:
+            bad.add("spelling-exception:%s" % type(e).__name__)
+        return sorted(bad)
+
+
+REGISTRY.append(SpellingsEndToEnd())
